@@ -313,7 +313,14 @@ func TestC02(t *testing.T) {
 					callee += "jobs:\n  a:\n    runs-on: ubuntu-latest\n    steps:\n      - run: echo\n"
 					caller := head + "  call:\n    uses: ./.github/workflows/callee.yml\n"
 					if rapid.Bool().Draw(rt, "unknown") {
-						caller += "    with:\n      zz1: a\n      zz2: b\n    secrets:\n      yy1: a\n      yy2: b\n"
+						caller += "    with:\n      zz1: a\n      zz2: b\n"
+						// some declared inputs are given too, with values that have diagnostics of their own
+						for i := 0; i < ni; i++ {
+							if rapid.Bool().Draw(rt, "givebad") {
+								caller += fmt.Sprintf("      in%d: %s\n", i, rapid.SampledFrom([]string{"${{ github.nosuch }}", "${{ 1 +", "ok", "${{ matrix.zz }}", "null"}).Draw(rt, "badval"))
+							}
+						}
+						caller += "    secrets:\n      yy1: a\n      yy2: b\n"
 					}
 					c := &c02Case{Kind: "workflow-call-missing-inputs-secrets", Repo: true, Files: map[string]string{wfPath + "callee.yml": callee, wfPath + "caller.yml": caller}, Targets: []string{wfPath + "caller.yml"}}
 					if rapid.Bool().Draw(rt, "both") {
